@@ -619,8 +619,11 @@ class Message:
             max_size -= max_size % self.pad
         r = dns.renderer.Renderer(self.id, self.flags, max_size, origin)
         opt_reserve = self._compute_opt_reserve()
-        r.reserve(opt_reserve)
         tsig_reserve = self._compute_tsig_reserve()
+        if opt_reserve + tsig_reserve > max_size:
+            # The OPT and TSIG records alone do not fit.
+            raise dns.exception.TooBig
+        r.reserve(opt_reserve)
         r.reserve(tsig_reserve)
         try:
             for rrset in self.question:
